@@ -48,7 +48,7 @@ func vhC15Trace[G any](cfg vhConfig) {
 	a2, e2 := p.ParseString("f", "", AllowTrailing(trailing), Trace(sink))
 	vhSameError(e1, e2, "C15: Trace")
 	var g G
-	root := vhGrammarOf(reflect.TypeOf(g), cfg.unions)
+	root := vhGrammar(reflect.TypeOf(g), cfg.unions)
 	if a1 != nil && a2 != nil {
 		vhSameAST(vhActual(root, reflect.ValueOf(a1).Elem()), vhActual(root, reflect.ValueOf(a2).Elem()), "C15: Trace")
 	}
@@ -73,7 +73,7 @@ func vhC15Cursor[G any](cfg vhConfig) {
 		return
 	}
 	var g G
-	root := vhGrammarOf(reflect.TypeOf(g), cfg.unions)
+	root := vhGrammar(reflect.TypeOf(g), cfg.unions)
 	rc := &refctx{T: toks, elide: cfg.elideMap(), k: k, sym: vhSymbols, ci: cfg.ciMap()}
 	accept, _, end := rc.parse(root, true)
 	if rc.bug || !accept {
@@ -182,3 +182,62 @@ func VH_C15_Cursor_Group() { vhC15Cursor[vgGroup](vhElideWs) }
 func VH_C15_Cursor_Opt()   { vhC15Cursor[vgOpt](vhNoElide) }
 
 func VH_C15_Canary() { VH_C01_Canary() }
+
+// --- C06 at byte level: ParseString / ParseBytes on arbitrary bytes through
+// the real stateful lexer: a value or a well-formed, located error.
+
+func vhBytePos(in string, off int) (line, col int) {
+	line, col = 1, 1
+	for i := 0; i < off; {
+		if in[i] == '\n' {
+			line++
+			col = 1
+			i++
+			continue
+		}
+		// one column per UTF-8 sequence start byte (tokens of the lexer end on rune boundaries)
+		n := 1
+		for i+n < off && in[i+n]&0xC0 == 0x80 {
+			n++
+		}
+		i += n
+		col++
+	}
+	return
+}
+
+func VH_C06_Bytes() {
+	in := vhBytesInput()
+	for i := 0; i < len(in); i++ {
+		vAssume(in[i] < 0x80) // column arithmetic on ASCII; multi-byte columns are C04's subject
+	}
+	fn := "file.txt"
+	p, berr := Build[vgWords](Lexer(vhWordsDef()))
+	vAssert(berr == nil, "catalogue grammar must build")
+	ast, err := p.ParseString(fn, in)
+	if err == nil {
+		vAssert(ast != nil, "C06: nil AST with nil error")
+		vReach("ok")
+		return
+	}
+	perr, ok := err.(interface {
+		Position() lexer.Position
+		Message() string
+	})
+	vAssert(ok, "C06: error without Position()/Message()")
+	pos := perr.Position()
+	vAssert(pos.Filename == fn, "C06: error position does not carry the supplied filename")
+	vAssert(pos.Offset >= 0 && pos.Offset <= len(in), "C06: error offset outside the input")
+	line, col := vhBytePos(in, pos.Offset)
+	vAssert(pos.Line == line && pos.Column == col, "C06: error line/column inconsistent with its offset")
+	vAssert(err.Error() == vhSpecError(pos, perr.Message()), "C06: Error() is not [file:]line:col: message")
+	if _, lexFail := err.(*lexer.Error); lexFail {
+		vAssert(ast == nil, "C06: a lexing failure must come with a nil AST")
+		vReach("lex-error")
+	} else {
+		vAssert(ast != nil, "C06: a parse failure must come with a non-nil partial AST")
+		_, isPE := err.(Error)
+		vAssert(isPE, "C06: parse error does not implement participle.Error")
+		vReach("parse-error")
+	}
+}
